@@ -643,6 +643,14 @@ Varable failures: {var_failed}
         varliststr = getattr(self, 'VAR-LIST', '')
         keys = [k for k in varliststr.split() if k in self.variables]
         newkeys = set(varkeys).difference(keys + ['ETFLAG', 'TFLAG'])
+        # as in getVarlist: only variables with the IOAPI dimensions and
+        # a name that fits a 16-character field are listed
+        newkeys = [
+            k for k in newkeys
+            if len(k) <= 16 and k in self.variables and tuple(
+                self.variables[k].dimensions
+            ) in (('TSTEP', 'LAY', 'ROW', 'COL'), ('TSTEP', 'LAY', 'PERIM'))
+        ]
         for varkey in varkeys:
             if varkey in newkeys:
                 varliststr += varkey.ljust(16)
